@@ -175,7 +175,7 @@ def histories(draw, o=None):
     kinds = []
     for k, dflt in (("cmd", 40), ("edit", 16), ("touch", 4), ("rmtarget", 8), ("setdo", 8), ("adddo", 4),
                     ("rmdo", 3), ("mkpath", 5), ("rmpath", 3), ("ext", 4), ("failflag", 6), ("query", 0),
-                    ("mwrite", 0), ("mreplace", 0), ("mremove", 0), ("redo", 8), ("stampflag", 0), ("crash", 0), ("usermodflag", 0)):
+                    ("mwrite", 0), ("mreplace", 0), ("mremove", 0), ("redo", 8), ("stampflag", 0), ("crash", 0), ("usermodflag", 0), ("dropdep", 0)):
         kinds += [k] * w.get(k, dflt)
     ops = []
     # locality: with probability p_focus an operation that names a target names one of 1-2 "focus" targets, so that
@@ -257,6 +257,45 @@ def histories(draw, o=None):
             names = sorted({s[1] for spec in dofiles.values() for s in spec["body"] if s[0] == "failflag"})
             if names:
                 ops.append(["failflag", _pick(draw, names), draw(st.integers(0, 1))])
+        elif k == "dropdep":
+            # a burst the statement of C02 names explicitly: a target stops declaring a dependency (its .do is edited,
+            # possibly after its file was removed), is rebuilt -- directly or through a dependent --, and the dropped
+            # file is edited afterwards: nothing may run then
+            cands = []
+            for dof in sorted(dofiles):
+                if dof.startswith("default") or "/default" in dof or not dof.endswith(".do"):
+                    continue
+                for gi, stt in enumerate(dofiles[dof]["body"]):
+                    if stt[0] == "dep":
+                        for q in stt[2]:
+                            if q in sources:
+                                cands.append((dof, gi, q))
+            if cands:
+                dof, gi, q = _pick(draw, cands)
+                t = dof[:-3]
+                spec = copy.deepcopy(dofiles[dof])
+                spec["v"] += 1
+                grp = [x for x in spec["body"][gi][2] if x != q]
+                if grp:
+                    spec["body"][gi][2] = grp
+                else:
+                    del spec["body"][gi]
+                still = any(stt[0] == "dep" and q in stt[2] for stt in spec["body"])
+                parents = [u for u in targets if u != t and rule_of(proj, u, dofiles) is not None and any(
+                    stt[0] == "dep" and t in stt[2] for stt in dofiles[rule_of(proj, u, dofiles)]["body"])]
+                req = _pick(draw, parents) if parents and draw(st.integers(0, 1)) else t
+                if not still and t in targets:
+                    if draw(st.integers(0, 1)):
+                        ops.append(["cmd", "ifchange", [req], ""])
+                    if draw(st.integers(0, 1)):
+                        ops.append(["rmtarget", t])
+                    dofiles[dof] = spec
+                    ops.append(["setdo", dof, spec])
+                    ops.append(["cmd", "ifchange", [req], ""])
+                    if draw(st.integers(0, 1)):
+                        ops.append(["cmd", "ifchange", [req], ""])
+                    ops.append(["edit", q, draw(st.integers(0, o.get("edit_variants", 3) - 1))])
+                    ops.append(["cmd", "ifchange", [req], ""])
         elif k == "usermodflag":
             ops.append(["usermodflag", pick_target()])
         elif k == "crash":
